@@ -129,26 +129,26 @@ theorem siteParams_pin : Gen.DequeSites.siteParams = [("Linked_PushBack_c0", ["d
   ("Linked_getNext_c0", ["d_isExp"]),
   ("Linked_getPrev_c0", ["d_isExp"])] := by rfl
 
-theorem shape_pin : Gen.DequeSites.shape = [("NewLinked", [0, 0, 0, 1, 0, 0]),
-  ("Linked_PushBack", [1, 1, 3, 0, 0, 0]),
-  ("Linked_UpdateNode", [4, 0, 4, 0, 0, 0]),
-  ("Linked_PushFront", [1, 1, 3, 0, 0, 0]),
-  ("Linked_PopFront", [1, 0, 1, 2, 0, 0]),
-  ("Linked_NotContains", [0, 0, 0, 1, 0, 0]),
-  ("Linked_Contains", [0, 0, 0, 1, 0, 0]),
-  ("Linked_MoveToBack", [1, 0, 0, 0, 0, 0]),
-  ("Linked_MoveToFront", [1, 0, 0, 0, 0, 0]),
-  ("Linked_Delete", [3, 1, 4, 0, 0, 0]),
-  ("Linked_Clear", [1, 0, 0, 0, 0, 0]),
-  ("Linked_Len", [0, 0, 0, 1, 0, 0]),
-  ("Linked_IsEmpty", [0, 0, 0, 1, 0, 0]),
-  ("Linked_Head", [0, 0, 0, 1, 0, 0]),
-  ("Linked_Tail", [0, 0, 0, 1, 0, 0]),
-  ("Linked_All", [2, 0, 2, 1, 0, 0]),
-  ("Linked_Backward", [2, 0, 2, 1, 0, 0]),
-  ("Linked_setPrev", [1, 0, 0, 0, 0, 0]),
-  ("Linked_setNext", [1, 0, 0, 0, 0, 0]),
-  ("Linked_getNext", [1, 0, 0, 2, 0, 0]),
-  ("Linked_getPrev", [1, 0, 0, 2, 0, 0])] := by rfl
+theorem shape_pin : Gen.DequeSites.shape = [("NewLinked", [0, 0, 0, 1, 0, 0, 0]),
+  ("Linked_PushBack", [1, 1, 3, 0, 0, 0, 0]),
+  ("Linked_UpdateNode", [4, 0, 4, 0, 0, 0, 0]),
+  ("Linked_PushFront", [1, 1, 3, 0, 0, 0, 0]),
+  ("Linked_PopFront", [1, 0, 1, 2, 0, 0, 0]),
+  ("Linked_NotContains", [0, 0, 0, 1, 0, 0, 0]),
+  ("Linked_Contains", [0, 0, 0, 1, 0, 0, 0]),
+  ("Linked_MoveToBack", [1, 0, 0, 0, 0, 0, 0]),
+  ("Linked_MoveToFront", [1, 0, 0, 0, 0, 0, 0]),
+  ("Linked_Delete", [3, 1, 4, 0, 0, 0, 0]),
+  ("Linked_Clear", [1, 0, 0, 0, 0, 0, 0]),
+  ("Linked_Len", [0, 0, 0, 1, 0, 0, 0]),
+  ("Linked_IsEmpty", [0, 0, 0, 1, 0, 0, 0]),
+  ("Linked_Head", [0, 0, 0, 1, 0, 0, 0]),
+  ("Linked_Tail", [0, 0, 0, 1, 0, 0, 0]),
+  ("Linked_All", [2, 0, 2, 1, 0, 0, 0]),
+  ("Linked_Backward", [2, 0, 2, 1, 0, 0, 0]),
+  ("Linked_setPrev", [1, 0, 0, 0, 0, 0, 0]),
+  ("Linked_setNext", [1, 0, 0, 0, 0, 0, 0]),
+  ("Linked_getNext", [1, 0, 0, 2, 0, 0, 0]),
+  ("Linked_getPrev", [1, 0, 0, 2, 0, 0, 0])] := by rfl
 
 end OtterVerif.Pin.DequeSites
